@@ -97,6 +97,27 @@ def innermost_repo_frame(exc):
     return locus or 'outside-cryptoparser'
 
 
+def raise_locus(exc):
+    """Root-cause locus of an exception raised during serialisation: the innermost frame inside cryptoparser or
+    cryptodatahub, marked when the exception was actually born deeper, in a third-party package."""
+    locus, deeper = None, None
+    for frame, _lineno in traceback.walk_tb(exc.__traceback__):
+        filename = frame.f_code.co_filename.replace('\\', '/')
+        for package in ('cryptoparser', 'cryptodatahub'):
+            marker = '/%s/' % package
+            if marker in filename and '/site-packages/' + package in filename + '/' or (package == 'cryptoparser' and marker in filename):
+                module = filename.split(marker, 1)[1].rsplit('.', 1)[0].replace('/', '.')
+                locus = '%s.%s:%s' % (package, module, getattr(frame.f_code, 'co_qualname', frame.f_code.co_name))
+                deeper = None
+                break
+        else:
+            if '/site-packages/' in filename:
+                deeper = filename.split('/site-packages/', 1)[1].split('/')[0]
+    if locus is None:
+        return 'outside'
+    return locus + ('<-' + deeper if deeper else '')
+
+
 class Outcome(object):
     """Result of one library call: ('ok', value) | ('documented', exception) | ('leak', exception)."""
     __slots__ = ('kind', 'value', 'exc')
